@@ -12,6 +12,9 @@ REPR = UFn("py_repr_str", [STR], STR, note="repr() of a str: one Python string l
 UNC_STR = UFn("uncompressed_text", [TOKEN], STR, note="helpers.uncompress on a STRING / COMPRESSED_STRING token")
 UNC_NUM = UFn("uncompressed_number", [TOKEN], INT, note="helpers.uncompress on a COMPRESSED_NUMBER token")
 W.clause_globals.update(tw_indent=TW, py_repr_str=REPR, uncompressed_text=UNC_STR, uncompressed_number=UNC_NUM)
+import vyxal.encoding as _enc
+import vyxal as _vyxal
+W.clause_globals.update(vyxal=_vyxal)
 W.py_repr = lambda v, ex: REPR.apply(ex, [v], {}) if not isinstance(v, (int, str)) else repr(v)
 
 W.contract(
@@ -219,4 +222,45 @@ W.contract(
     fuel=0,
     note="string overload of the quote element (vy_type(lhs) is str because lhs is declared a str)",
     props=["C06"],
+)
+
+
+@W.spec([STR, STR], BOOL)
+def none_in(v, a):
+    """no character of v is one of the characters of a"""
+    return True if len(v) == 0 else (not (v[0] in a) and none_in(v[1:], a))
+
+
+# ---- C06, dictionary compression on: printable-ASCII text without compression digits is left alone
+COMPRESSION = "vyxal.encoding.compression"
+W.contract(
+    "vyxal/helpers.py::uncompress_dict",
+    params=dict(source=STR), result=STR,
+    requires=["strbody(source)", f"none_in(source, {COMPRESSION})"],
+    ensures=["result == source"],
+    loops={0: dict(
+        inv=["temp_scc == ''", "ret + ('\\\\' if escaped else '') + characters == source",
+             "(len(characters) >= 1 and strbody(characters[1:])) if escaped else strbody(characters)",
+             f"none_in(characters, {COMPRESSION})"],
+        hints=["unfold(strbody(characters))", f"unfold(none_in(characters, {COMPRESSION}))", "unfold(strbody(characters[1:]))"],
+    )},
+    hints=["unfold(strbody(characters))"],
+    fuel=0,
+    witness=dict(source="ab\\`c"),
+    note="for the escaped form esc(s) of a printable-ASCII string (no dictionary digits, every backslash followed by a character) decompression is the identity",
+    props=["C06"],
+)
+
+W.lemma(
+    "escaping_adds_no_dictionary_digits",
+    vars=dict(s=STR),
+    requires=[f"none_in(s, {COMPRESSION})"],
+    goal=f"none_in(esc(s), {COMPRESSION})",
+    ih=[dict(at=dict(s="s[1:]"), measure="len(s)", when="len(s) >= 1")],
+    hints=[f"unfold(none_in(s, {COMPRESSION}))", "unfold(esc(s))", f"unfold(none_in(esc(s), {COMPRESSION}))", f"unfold(none_in(esc(s)[1:], {COMPRESSION}))", f"unfold(none_in('', {COMPRESSION}))"],
+    asserts=["implies(len(s) >= 1, ('\\\\\\\\' + esc(s[1:]))[1:] == '\\\\' + esc(s[1:]) and ('\\\\' + esc(s[1:]))[1:] == esc(s[1:]) and ('\\\\`' + esc(s[1:]))[1:] == '`' + esc(s[1:]) and ('`' + esc(s[1:]))[1:] == esc(s[1:]))",
+             "implies(len(s) >= 1 and s[0] != '\\\\' and s[0] != '`', (s[0] + esc(s[1:]))[1:] == esc(s[1:]))"],
+    fuel=0,
+    props=["C06"],
+    note="backslash and back-quote are not dictionary digits, so the escaped form of a string without dictionary digits has none either (precondition of uncompress_dict's contract)",
 )
